@@ -27,7 +27,7 @@ import numpy
 import z3
 
 from symx import builders, env, smtre
-from symx.core import And, HarnessError, Not, Or, same, SymInt
+from symx.core import And, HarnessError, Implies, Not, Or, same, SymInt
 from symx.runner import Case, VERIF, main_run, replay_file
 
 PROP = 'C20'
@@ -321,6 +321,56 @@ def body_errors(ctx, kind):
         ctx.check(isinstance(status, int) and status != 0, 'user-caused failures end with a non-zero exit status')
 
 
+# ---- (b1) output format guessed from the extension: every extension -----------------------------
+
+class _FakePath:
+    """Stands for the output Path: guess_format reads only `.suffix` (a string that is empty or '.' + name chars)."""
+    def __init__(self, suffix):
+        self.suffix = suffix
+
+    def __fspath__(self):
+        raise HarnessError('guess_format touched the file system')
+
+
+GUESS = {'.json': 'geojson', '.geojson': 'geojson', '.wkt': 'wkt', '.wkb': 'wkb', '.shp': 'shapefile'}
+
+
+def body_guess(ctx):
+    from pathlib import Path
+    from emsarray.cli.commands.export_geometry import Command
+    from emsarray.cli.exceptions import CommandException
+    # what Path.suffix can be: '' or a dot followed by characters that are neither '.' nor '/' (printable ASCII here)
+    name_char = z3.Union(z3.Range('!', '-'), z3.Range('0', '~'))
+    language = z3.Union(z3.Re(''), z3.Concat(z3.Re('.'), z3.Plus(name_char)))
+    literals = _string_literals(Command.guess_format) | set(GUESS)
+    suffix = ctx.text('suffix', constants=sorted(literals), language=language)
+    if ctx.symbolic:
+        path = _FakePath(suffix)
+    else:
+        path = Path('out' + suffix)
+        if path.suffix != suffix:
+            raise HarnessError(f'witness {suffix!r} is not a path suffix')
+    try:
+        got = Command().guess_format(path)
+    except CommandException:
+        got = None
+    for ext, fmt in GUESS.items():
+        ctx.check(Implies(suffix == ext, got == fmt), f'extension {ext} is exported as {fmt}')
+    if got is not None:
+        ctx.check(Or(*[suffix == ext for ext, fmt in GUESS.items() if fmt == got]) if any(fmt == got for fmt in GUESS.values()) else False,
+                  'a format is guessed only for the documented extensions, any other extension is refused')
+
+
+def _string_literals(fn):
+    """every string literal in the source of `fn` (regenerated from the working tree on each run)"""
+    tree = ast.parse(textwrap.dedent(inspect.getsource(fn)))
+    out = set()
+    for node in ast.walk(tree):
+        if isinstance(node, ast.Constant) and isinstance(node.value, str) and len(node.value) < 40:
+            out.add(node.value)
+    return out
+
+
 # ---- (b2) extract-points for every pattern of hits and misses --------------------------------
 
 HOLD = {}
@@ -573,6 +623,40 @@ def cli_equivalence(tier):
                       f'{dict(a.sizes)} != {dict(c.sizes)}', dict(step=step))
                 a.close()
                 c.close()
+        # a GeoJSON argument of any geometry type denotes that geometry (string form and file form)
+        b = shapely.unary_union(polys[:2]).bounds
+        cx, cy = (b[0] + b[2]) / 2, (b[1] + b[3]) / 2
+        kinds = {
+            'Point': shapely.Point(cx, cy),
+            'MultiPoint': shapely.MultiPoint([(cx, cy), (b[0] + 0.01, b[1] + 0.01)]),
+            'LineString': shapely.LineString([(b[0] + 0.01, b[1] + 0.01), (b[2] - 0.01, b[3] - 0.01)]),
+            'MultiLineString': shapely.MultiLineString([[(b[0] + 0.01, cy), (cx, cy)], [(cx, b[1] + 0.01), (cx, b[3] - 0.01)]]),
+            'Polygon+hole': shapely.box(*b).difference(shapely.Point(cx, cy).buffer(0.05, quad_segs=2)),
+            'MultiPolygon': shapely.MultiPolygon([shapely.box(b[0], b[1], cx - 0.1, cy), shapely.box(cx + 0.1, cy, b[2], b[3])]),
+        }
+        for kind, geom in kinds.items():
+            text = json.dumps(shapely.geometry.mapping(geom))
+            with open(region, 'w') as f:
+                f.write(text)
+            for form, arg in (('string', text), ('file', region)):
+                got = cu.geometry_argument(arg)
+                if got.geom_type != geom.geom_type or got.is_empty != geom.is_empty or not got.equals(geom):
+                    V(f'cli:geojson:{kind}:{form}', 'a GeoJSON argument denotes exactly that geometry',
+                      f'{geom.wkt[:200]} parsed as {got.wkt[:200]}', dict(kind=kind, form=form))
+            if kind in ('LineString', 'Point'):
+                out_cli = os.path.join(work, f'geojson-clip-{kind}.nc')
+                status = run_main(['clip', src, text, out_cli])
+                wd = tempfile.mkdtemp(dir=work)
+                out_lib = os.path.join(work, f'geojson-clip-lib-{kind}.nc')
+                emsarray.open_dataset(src).ems.clip(geom, wd).ems.to_netcdf(out_lib)
+                if status != 0 or not os.path.exists(out_cli):
+                    V(f'cli:geojson:{kind}:clip', 'clip with a GeoJSON geometry the library accepts succeeds', f'exit status {status}')
+                else:
+                    a, c = xarray.open_dataset(out_cli), xarray.open_dataset(out_lib)
+                    if not a.identical(c):
+                        V(f'cli:geojson:{kind}:clip', 'clip output equals the library result', f'{dict(a.sizes)} != {dict(c.sizes)}')
+                    a.close()
+                    c.close()
         # the CommandException raised for missing points names exactly the missing rows
         from emsarray.cli.commands.extract_points import Command
         src = os.path.join(work, 'cf1d.nc')
@@ -612,6 +696,7 @@ def guess_format_checks():
 def cases(tier):
     for kind in ('command', 'command_default', 'oserror', 'permission', 'value', 'nonintersecting', 'none'):
         yield Case(f'errors:{kind}', body_errors, dict(kind=kind), max_paths=50)
+    yield Case('guess_format:any-extension', body_guess, dict(), max_paths=500)
     q = tier == 'quick'
     for conv in ('cf1d', 'ugrid'):
         for policy in ('default', 'error', 'drop', 'fill'):
